@@ -17,7 +17,7 @@ RULE = ("Trees: (plus five shapes with leaf tasks waiting in to_thread.run_sync 
         "nursery.child_tasks by root identity; recursively), each task's frames a prefix of its real cr_await chain ending at a "
         "Trio trap, no error, no warning; recurse_child_tasks=False gives frameless stubs. Hops: ping-pong depth 0..M, innermost "
         "async or thread function extracts the originating task (or foreign thread): visible user frames must equal the "
-        "program's own call log (identity, order); each hop case also with a second, unrelated Trio run alive in another thread (started before / after the observed run). evaluations = tasks/stacks compared; distinct_nontrivial = distinct programs.")
+        "program's own call log (identity, order); four fresh interpreters in which the first extraction of the process - the one that installs the Trio glue - happens outside any run / inside a task / on the Trio thread outside any task (an Instrument hook) / in a worker thread, each followed by an ordinary extraction; each hop case also with a second, unrelated Trio run alive in another thread (started before / after the observed run). evaluations = tasks/stacks compared; distinct_nontrivial = distinct programs.")
 ASSUMPTIONS = ["observation happens once wait_all_tasks_blocked() fires, so the observed state does not depend on Trio's batch order"]
 
 
@@ -274,6 +274,107 @@ def run_tree(shape, choice_list, same_names=False):
     return problems, counter[0], src
 
 
+
+INSTALL_SCRIPT = r"""
+import json, sys, threading, warnings
+import stackscope                      # imported before trio: the Trio glue is still pending
+import trio, trio.testing
+mode = sys.argv[1]
+problems = []
+box = {"snaps": []}
+
+
+def snapshot(tag):
+    root = box["root"]
+    with warnings.catch_warnings(record=True) as w:
+        warnings.simplefilter("always")
+        st = stackscope.extract(root, recurse_child_tasks=True)
+    warns = [str(x.message)[:160] for x in w]
+    if warns:
+        problems.append("%s: warnings %r" % (tag, warns))
+    if st.error is not None:
+        problems.append("%s: error %r" % (tag, st.error))
+    nurseries = [c for f in st.frames for c in f.contexts if isinstance(c.obj, trio.Nursery)]
+    real = list(root.child_nurseries)
+    if [c.obj for c in nurseries] != real:
+        problems.append("%s: nursery contexts %r, Trio says %r (all context objs: %r)" % (
+            tag, [c.obj for c in nurseries], real, [type(c.obj).__name__ for f in st.frames for c in f.contexts]))
+    else:
+        for c, n in zip(nurseries, real):
+            kids = [ch.root for ch in c.children]
+            if set(map(id, kids)) != set(map(id, n.child_tasks)) or len(kids) != len(n.child_tasks):
+                problems.append("%s: children %r, Trio says %r" % (tag, kids, list(n.child_tasks)))
+            for ch in c.children:
+                if not ch.frames or ch.error is not None:
+                    problems.append("%s: child %r not extracted down to its blocking point: %r" % (tag, ch.root, ch))
+    box["snaps"].append(tag)
+
+
+class Inst(trio.abc.Instrument):
+    def before_io_wait(self, timeout):
+        # on the Trio thread, inside trio.run(), but not inside any task
+        if mode == "instrument" and box.get("ready") and "first" not in box["snaps"]:
+            snapshot("first")
+
+
+async def leaf():
+    await trio.sleep_forever()
+
+
+async def root_fn():
+    box["root"] = trio.lowlevel.current_task()
+    async with trio.open_nursery() as outer:
+        outer.start_soon(leaf)
+        async with trio.open_nursery() as inner:
+            inner.start_soon(leaf)
+            inner.start_soon(leaf)
+            await trio.sleep_forever()
+
+
+async def main():
+    async with trio.open_nursery() as nursery:
+        nursery.start_soon(root_fn)
+        await trio.testing.wait_all_tasks_blocked()
+        box["ready"] = True
+        if mode == "instrument":
+            await trio.sleep(0.05)          # lets the run loop go idle: the instrument takes the first snapshot
+        elif mode == "task":
+            snapshot("first")
+        elif mode == "thread":
+            await trio.to_thread.run_sync(snapshot, "first")
+        if "first" not in box["snaps"]:
+            problems.append("harness: the first snapshot was not taken (mode %s)" % mode)
+        snapshot("second")                  # an ordinary snapshot from a task, after whatever happened first
+        nursery.cancel_scope.cancel()
+
+if mode == "outside":
+    def g():
+        yield 1
+    x = g(); next(x)
+    stackscope.extract(x)                   # first extraction of the process happens outside any Trio run
+    box["snaps"].append("first")
+trio.run(main, instruments=[Inst()])
+print("RESULT " + json.dumps(problems))
+"""
+
+
+def run_install(mode):
+    """In a fresh interpreter (stackscope imported before trio, nothing extracted yet) the FIRST extraction - the one
+    that installs the Trio glue - happens in context `mode`; the tree it and a later ordinary extraction report must
+    be isomorphic to Trio's."""
+    import json
+    import os
+    import subprocess
+    env = dict(os.environ)
+    env["PYTHONPATH"] = os.pathsep.join(p for p in sys.path if p)
+    p = subprocess.run([sys.executable, "-c", INSTALL_SCRIPT, mode], stdout=subprocess.PIPE, stderr=subprocess.PIPE, env=env, timeout=120)
+    out = p.stdout.decode("utf-8", "replace")
+    for line in out.splitlines():
+        if line.startswith("RESULT "):
+            return [str(x) for x in json.loads(line[7:])], 2
+    return ["fresh interpreter (mode %s) exited %r without a result: %s" % (mode, p.returncode, p.stderr.decode("utf-8", "replace")[-600:])], 0
+
+
 # ------------------------------------------------------------------ hops
 def start_other_run():
     """another Trio run, alive in a thread of its own for as long as the scenario lasts; returns stop()"""
@@ -403,6 +504,8 @@ def _run_hops(depth, leaf, origin, other, stops):
 
 
 def hop_cases(maxd):
+    for mode in ("outside", "task", "instrument", "thread"):
+        yield {"leg": "install", "mode": mode}
     for origin in ("task", "thread"):
         for d in range(0, maxd + 1):
             for leaf in ("async", "thread"):
@@ -450,6 +553,8 @@ def do_case(case):
     if case["leg"] == "tree":
         problems, n, src = run_tree(case["shape"], [tuple(c) for c in case["choices"]], case.get("same_names", False))
         return problems, n
+    if case["leg"] == "install":
+        return run_install(case["mode"])
     return run_hops(case["depth"], case["leaf"], case["origin"], case.get("other"))
 
 
